@@ -1193,6 +1193,99 @@ fn known_sweep(_c: &SweepCase, msg: &str) -> Option<&'static str> {
 
 pub static SWEEP: Driver<SweepCase> = Driver::new("C09", "sweep", check_sweep).with_known(known_sweep);
 
+// ---- descriptor exhaustion inside constructs that allocate descriptors themselves (pipelines,
+//      command substitutions, here-documents, sourced files), in a shell that survives the failure
+
+#[derive(Clone, Debug, PartialEq, Eq, Hash, Serialize, Deserialize)]
+pub struct ExhaustCase {
+    /// index into EXHAUST_CONSTRUCTS
+    pub construct: u8,
+    /// soft RLIMIT_NOFILE set by `ulimit -n` right before the construct
+    pub limit: u8,
+    /// descriptors 3.. opened beforehand (so that allocations fail at different points)
+    pub pre_open: u8,
+    /// interactive shell reading the script from standard input (an interrupted command does not end
+    /// it); otherwise the table is inspected by the EXIT trap
+    pub interactive: bool,
+}
+
+pub const EXHAUST_CONSTRUCTS: [&str; 16] = [
+    "st 0 | st 0",
+    "st 0 | st 0 | st 0",
+    "st 0 | st 0 | st 0 | st 0",
+    "st 0 | st 0 | st 0 | st 0 | st 0",
+    "x=$(st 0)",
+    "x=$(st 0 | st 0 | st 0)",
+    "x=$(echo $(echo $(echo a)))",
+    "cat <<EOF >/dev/null\nbody\nEOF",
+    "cat <<EOF | cat | cat >/dev/null\nbody\nEOF",
+    "(st 0 | st 0) | (st 0 | st 0)",
+    "for i in a b; do st 0 | st 0 | st 0; done",
+    "{ st 0 | st 0 | st 0; } >/dev/null 2>&1",
+    "echo a$(st 0)b$(st 0 | st 0) | cat >/dev/null",
+    "st 0 | st 0 | st 0 &\nwait",
+    "command . ./dotf >/dev/null",
+    "f() { st 0 | st 0 | st 0; }; f 8>/dev/null",
+];
+
+fn check_exhaust(c: &ExhaustCase) -> Outcome {
+    let construct = EXHAUST_CONSTRUCTS[c.construct as usize % EXHAUST_CONSTRUCTS.len()];
+    let mut script = String::new();
+    for k in 0..c.pre_open.min(6) {
+        script.push_str(&format!("exec {}</dev/null\n", 3 + k));
+    }
+    if c.interactive {
+        script.push_str(&format!("snap before\nulimit -n {}\n{construct}\nsnap after\n", c.limit));
+    } else {
+        // a non-interactive shell is ended by the failure: look at the table from the EXIT trap
+        script.push_str(&format!("trap 'snap after' EXIT\nsnap before\nulimit -n {}\n{construct}\n", c.limit));
+    }
+    let mut s = vsys::Setup::script(&script);
+    if c.interactive {
+        s.argv = vec!["yash".into(), "-i".into()];
+        s.stdin = Some(script.clone().into_bytes());
+    }
+    s.files.push(("dotf".into(), vsys::FileSpec::Regular { content: "st 0 | st 0\n".into(), mode: 0o644, exec: false }));
+    s.drain = true;
+    let r = vsys::run(&s);
+    let ctx = |m: String| format!("{m}\ninteractive {} limit {} descriptors opened beforehand {}\nscript:\n{script}stderr: {:?}", c.interactive, c.limit, c.pre_open.min(6), r.stderr.lines().filter(|l| l.contains("error") || l.contains("cannot")).take(3).collect::<Vec<_>>());
+    if let Some(p) = &r.panic {
+        return Outcome::fail(ctx(format!("panic: {p}")));
+    }
+    if r.log.deadlock {
+        return Outcome::fail(ctx("deadlock".into()));
+    }
+    let main = r.main_pid;
+    let table = |tag: &str| r.proc_snaps.iter().find(|(t, p)| t == tag && p.pid == main).map(|(_, p)| p.fds.iter().map(|(fd, i)| (*fd, i.ofd, i.cloexec)).collect::<Vec<_>>());
+    let Some(before) = table("before") else {
+        return Outcome::skip("the set-up did not reach the construct");
+    };
+    let Some(after) = table("after") else {
+        // `ulimit` itself may end a non-interactive shell... the EXIT trap still runs; an interactive
+        // shell always goes on
+        return Outcome::fail(ctx("the descriptor table could not be inspected after the construct (no `snap after`)".into()));
+    };
+    if before != after {
+        return Outcome::fail(ctx(format!(
+            "the shell's descriptor table changed across a command without `exec` redirections: before {before:?} after {after:?} (fd, open file description, close-on-exec) - a descriptor was left behind when descriptor allocation failed part-way"
+        )));
+    }
+    // no child may be left unreaped or alive once the shell is done (the background case waits)
+    let failed = r.stderr.contains("cannot") || r.stderr.contains("error");
+    Outcome::pass(failed)
+        .class_if(failed, "allocation-failed-inside-the-construct")
+        .class_if(!failed, "limit-not-reached")
+        .class_if(c.interactive, "interactive-shell-survives")
+        .class(match c.construct as usize % EXHAUST_CONSTRUCTS.len() {
+            0..=3 | 9..=11 | 13 | 15 => "exhaust:pipeline",
+            4..=6 | 12 => "exhaust:command-substitution",
+            7 | 8 => "exhaust:here-document",
+            _ => "exhaust:dot-script",
+        })
+}
+
+pub static EXHAUST: Driver<ExhaustCase> = Driver::new("C09", "exhaust", check_exhaust);
+
 // ---- pathname expansion (directory scans) must not leave descriptors open
 
 #[derive(Clone, Debug, PartialEq, Eq, Hash, Serialize, Deserialize)]
@@ -1466,6 +1559,21 @@ pub fn run(ctx: &Ctx, st: &mut Stats) {
 
     let n = ctx.tier.pick(3_000, 60_000);
     GLOB.run_random(ctx, st, n, arb_glob_case);
+
+    // fault enumeration: every construct x every limit 3..=20 x 0..=4 descriptors opened beforehand
+    // x interactive or not
+    let (nc, nl, np) = (EXHAUST_CONSTRUCTS.len() as u64, 18u64, 5u64);
+    let total = nc * nl * np * 2;
+    EXHAUST.run_exhaustive(ctx, st, total, &move |i| {
+        let interactive = i % 2 == 0;
+        let i = i / 2;
+        let pre_open = (i % np) as u8;
+        let i = i / np;
+        let limit = 3 + (i % nl) as u8;
+        let construct = (i / nl) as u8;
+        Some(ExhaustCase { construct, limit, pre_open, interactive })
+    });
+    st.extra.insert("exhaust_space".into(), serde_json::json!({"constructs": nc, "limits": [3, 20], "pre_opened": [0, 4], "shells": 2, "cases": total}));
 }
 
 pub fn replay(driver: &str, case: &serde_json::Value) -> Result<(Outcome, Option<&'static str>), String> {
@@ -1474,6 +1582,7 @@ pub fn replay(driver: &str, case: &serde_json::Value) -> Result<(Outcome, Option
         "single" => SINGLE.replay_known(case),
         "sweep" => SWEEP.replay_known(case),
         "glob" => GLOB.replay_known(case),
+        "exhaust" => EXHAUST.replay_known(case),
         _ => Err(format!("unknown driver {driver}")),
     }
 }
